@@ -8,7 +8,7 @@ Prints one line per seeded change and a summary; exit 1 if an outcome differs fr
 import json, os, re, subprocess, sys, glob
 
 VERIF = os.path.dirname(os.path.dirname(os.path.abspath(__file__)))
-WT = "/var/tmp/repo-mut"
+WT = os.environ.get("REGRESS_WT", "/var/tmp/repo-mut")
 subprocess.run(["git", "-C", "/repo", "worktree", "remove", "--force", WT], capture_output=True)
 subprocess.run(["git", "-C", "/repo", "worktree", "add", "-q", "--detach", WT, "HEAD"], check=True)
 ids = sorted((os.path.basename(d) for d in glob.glob(os.path.join(VERIF, "seeded", "C*-m*"))),
